@@ -83,6 +83,13 @@ func run(r *hx.Run) error {
 	for i := 0; i < nr; i++ {
 		h.genRace(i)
 	}
+	ncq := 80
+	if r.Thorough {
+		ncq = 1500
+	}
+	for i := 0; i < ncq; i++ {
+		h.genCq(i)
+	}
 	return nil
 }
 
@@ -303,6 +310,7 @@ func (h *H) runOps(ops []string) {
 	var reports []report
 	var qops []qop
 	var rops []raceOp
+	var cops []cqOp
 	id := "replay"
 	for _, op := range ops {
 		f := strings.Fields(op)
@@ -354,6 +362,10 @@ func (h *H) runOps(ops []string) {
 			if q, ok := parseRaceOp(f); ok {
 				rops = append(rops, q)
 			}
+		case "cquery":
+			if q, ok := parseCqOp(f); ok {
+				cops = append(cops, q)
+			}
 		}
 	}
 	if len(qops) > 0 {
@@ -362,6 +374,10 @@ func (h *H) runOps(ops []string) {
 	}
 	if len(rops) > 0 {
 		h.raceCase(id, mask, rops)
+		return
+	}
+	if len(cops) > 0 {
+		h.cqCase(id, mask, cops)
 		return
 	}
 	if stream {
